@@ -299,6 +299,11 @@ def finding_of(case, obs):
     if len(S) != 1:
         return None
     x = next(iter(S))
+    # the observed outcome must be exactly what the property demands of the same grader WITHOUT the pattern, i.e. the
+    # only thing that went wrong is that validation let the submission through
+    nopat = dict(case, config={k: v for k, v in case['config'].items() if k != 'validation_pattern'})
+    if judge(nopat, obs)[0] is not None or demand(nopat)[0] == 'skip':
+        return None
     try:
         if re.fullmatch(p, x) is not None:
             return None
@@ -589,9 +594,10 @@ def run_small_scope(ctx, res, rng, scale):
         for i, sub in enumerate(scope):
             if len(nfs[i]) == 1:
                 add_call({'kind': 'match', 'config': kw, 'expect': next(iter(nfs[i])), 'sub': sub}, res, cases, stats)
-            j = (i * 31 + 7 * fi + 11) % len(scope)
-            other = sorted(nfs[j])[0]
-            add_call({'kind': 'match', 'config': kw, 'expect': other, 'sub': sub}, res, cases, stats)
+            if n <= 3 or scale >= 3:
+                j = (i * 31 + 7 * fi + 11) % len(scope)
+                other = sorted(nfs[j])[0]
+                add_call({'kind': 'match', 'config': kw, 'expect': other, 'sub': sub}, res, cases, stats)
     res.distribution['small_scope'] = {'alphabet': alphabet, 'max_length': n, 'strings': len(scope), 'flag_combinations': 16,
                                        'calls': dict(stats)}
     emit(cases, res, 'c18_scope', 'call_case', shard=max(300, len(cases) // 14 + 1))
